@@ -25,7 +25,7 @@ Definition dec_inode (x : sx) : N * inode :=
 Definition dec_prim (x : sx) : prim :=
   let s := x_str x in
   if ustr_eqb s (u "open") then POpen else if ustr_eqb s (u "stat") then PStat
-  else if ustr_eqb s (u "fstat") then PFstat else if ustr_eqb s (u "scandir") then PScandir else PRead.
+  else if ustr_eqb s (u "fstat") then PFstat else if ustr_eqb s (u "scandir") then PScandir else if ustr_eqb s (u "mopen") then PMOpen else PRead.
 Definition dec_world (x : sx) : world :=
   match x_list x with
   | [r; nodes; faults; avail] =>
